@@ -351,4 +351,141 @@ example : image [("a", .lit 1), ("b", .lit 2), ("a", .lit 3)] [.ref "a"] 9 = non
 /-- a cycle runs out of any fuel -/
 example : eval [("a", .ref "b"), ("b", .ref "a")] 50 (.ref "a") = none := by decide
 
+/-! ## second part -/
+open Pdpy11.Model Pdpy11.Model.Defs Pdpy11.Model.Scope
+
+/-- every reference in `e` to a name the table defines has rank below `k` -/
+def RefsBelow (t : Table) (rk : String → Nat) (k : Nat) : E → Prop
+  | .lit _ => True
+  | .ref n => (lookup t n).isSome → rk n < k
+  | .bin _ l r => RefsBelow t rk k l ∧ RefsBelow t rk k r
+  | .un _ e => RefsBelow t rk k e
+
+/-- the table is acyclic: a rank decreases along every reference; `S` bounds the body sizes -/
+def Acyclic (t : Table) (rk : String → Nat) (S : Nat) : Prop :=
+  ∀ n body, lookup t n = some body → RefsBelow t rk (rk n) body ∧ body.size ≤ S
+
+theorem refsBelow_mono (t : Table) (rk : String → Nat) (k k' : Nat) (h : k ≤ k') (e : E) (hb : RefsBelow t rk k e) :
+    RefsBelow t rk k' e := by
+  induction e with
+  | lit v => trivial
+  | ref n => intro hs; exact Nat.lt_of_lt_of_le (hb hs) h
+  | bin op l r ihl ihr => exact ⟨ihl hb.1, ihr hb.2⟩
+  | un op e ih => exact ih hb
+
+theorem size_pos (e : E) : 0 < e.size := by cases e <;> simp [E.size] <;> omega
+
+theorem eval_bin_isSome (t : Table) (f : Nat) (op : String) (l r : E) (h1 : (eval t f l).isSome) (h2 : (eval t f r).isSome) :
+    (eval t (f + 1) (.bin op l r)).isSome := by
+  cases ha : eval t f l with
+  | none => simp [ha] at h1
+  | some a =>
+    cases hb : eval t f r with
+    | none => simp [hb] at h2
+    | some b =>
+      simp only [eval, ha, hb]
+      cases Ops.binop op a.val b.val with
+      | none => rfl
+      | some p => rfl
+
+theorem eval_un_isSome (t : Table) (f : Nat) (op : String) (e : E) (h1 : (eval t f e).isSome) :
+    (eval t (f + 1) (.un op e)).isSome := by
+  cases ha : eval t f e with
+  | none => simp [ha] at h1
+  | some a =>
+    simp only [eval, ha]
+    cases Ops.unop op a.val with
+    | none => rfl
+    | some p => rfl
+
+/-- with fuel `size e + k·(S+1)` every expression whose defined references rank below `k` gets a
+value (possibly with error reports) -/
+theorem eval_some_of_rank (t : Table) (rk : String → Nat) (S : Nat) (hac : Acyclic t rk S) (k : Nat) :
+    ∀ e, RefsBelow t rk k e → ∀ f, e.size + k * (S + 1) ≤ f → (eval t f e).isSome := by
+  induction k with
+  | zero =>
+    intro e
+    induction e with
+    | lit v => intro _ f hf; cases f with | zero => simp [E.size] at hf | succ f => simp [eval]
+    | ref n =>
+      intro hb f hf
+      cases f with
+      | zero => simp [E.size] at hf
+      | succ f =>
+        simp only [eval]
+        cases hl : lookup t n with
+        | none => simp
+        | some body => have := hb (by simp [hl]); omega
+    | bin op l r ihl ihr =>
+      intro hb f hf
+      cases f with
+      | zero => simp [E.size] at hf
+      | succ f =>
+        simp only [E.size] at hf
+        exact eval_bin_isSome t f op l r (ihl hb.1 f (by omega)) (ihr hb.2 f (by omega))
+    | un op e ih =>
+      intro hb f hf
+      cases f with
+      | zero => simp [E.size] at hf
+      | succ f =>
+        simp only [E.size] at hf
+        exact eval_un_isSome t f op e (ih hb f (by omega))
+  | succ k ihk =>
+    intro e
+    induction e with
+    | lit v => intro _ f hf; cases f with | zero => simp [E.size] at hf | succ f => simp [eval]
+    | ref n =>
+      intro hb f hf
+      cases f with
+      | zero => simp [E.size] at hf
+      | succ f =>
+        simp only [eval]
+        cases hl : lookup t n with
+        | none => simp
+        | some body =>
+          have hrk : rk n < k + 1 := hb (by simp [hl])
+          have ⟨hrefs, hsz⟩ := hac n body hl
+          have hrefs' : RefsBelow t rk k body := refsBelow_mono t rk (rk n) k (by omega) body hrefs
+          apply ihk body hrefs' f
+          simp only [E.size] at hf
+          have : (k + 1) * (S + 1) = k * (S + 1) + (S + 1) := by rw [Nat.succ_mul]
+          omega
+    | bin op l r ihl ihr =>
+      intro hb f hf
+      cases f with
+      | zero => simp [E.size] at hf
+      | succ f =>
+        simp only [E.size] at hf
+        exact eval_bin_isSome t f op l r (ihl hb.1 f (by omega)) (ihr hb.2 f (by omega))
+    | un op e ih =>
+      intro hb f hf
+      cases f with
+      | zero => simp [E.size] at hf
+      | succ f =>
+        simp only [E.size] at hf
+        exact eval_un_isSome t f op e (ih hb f (by omega))
+
+/-- **Enough fuel exists for every acyclic table.** If the ranks are bounded by `R` and the bodies
+by `S`, fuel `size e + (R+1)·(S+1)` gives every expression a value; by `fuel_unique` that value is
+the value for every larger fuel. Hence `none` (out of fuel) at that fuel means the definitions are
+cyclic. -/
+theorem fuel_enough (t : Table) (rk : String → Nat) (R S : Nat) (hac : Acyclic t rk S) (hR : ∀ n, rk n ≤ R) (e : E) :
+    (eval t (e.size + (R + 1) * (S + 1)) e).isSome := by
+  apply eval_some_of_rank t rk S hac (R + 1) e _ _ (Nat.le_refl _)
+  -- every reference ranks below R + 1
+  clear hac
+  induction e with
+  | lit v => trivial
+  | ref n => intro _; have := hR n; omega
+  | bin op l r ihl ihr => exact ⟨ihl, ihr⟩
+  | un op e ih => exact ih
+
+/-- contrapositive: no value at that fuel ⇒ the table is not acyclic for any rank bounded by `R` -/
+theorem out_of_fuel_means_cycle (t : Table) (R S : Nat) (e : E) (h : eval t (e.size + (R + 1) * (S + 1)) e = none) :
+    ¬ ∃ rk : String → Nat, Acyclic t rk S ∧ ∀ n, rk n ≤ R := by
+  rintro ⟨rk, hac, hR⟩
+  have := fuel_enough t rk R S hac hR e
+  simp [h] at this
+
+
 end Pdpy11.Props.C03
